@@ -79,7 +79,7 @@ func wire(w *world, cfg *Config, rng *rand.Rand) *wiring {
 	isConn := map[string]bool{}
 	for _, c := range cfg.Conns {
 		isConn[c.ID] = true
-		id := component.MustNewID(c.ID)
+		id := w.cid("connector", c.ID)
 		wi.connCfg[id] = &struct{}{}
 		wi.connFac[id.Type()] = w.connectorFactory(c.ID, c.Sup)
 		w.routeEach[c.ID] = rng.Intn(2) == 0
@@ -88,43 +88,59 @@ func wire(w *world, cfg *Config, rng *rand.Rand) *wiring {
 	for _, s := range cfg.Shared {
 		shared[s] = true
 	}
-	ids := func(l []string) []component.ID {
+	ids := func(kind string, l []string) []component.ID {
 		out := make([]component.ID, 0, len(l))
 		for _, s := range l {
-			out = append(out, component.MustNewID(s))
+			k := kind
+			if isConn[s] {
+				k = "connector"
+			} else if kind == "receiver" && shared[s] {
+				k = "shared"
+			}
+			out = append(out, w.cid(k, s))
 		}
 		return out
 	}
 	for _, p := range cfg.Pipes {
 		for _, r := range p.R {
 			if !isConn[r] {
-				id := component.MustNewID(r)
+				k := "receiver"
+				if shared[r] {
+					k = "shared" // built with internal/sharedcomponent: keeps a type of its own
+				}
+				id := w.cid(k, r)
 				if _, ok := wi.rcvCfg[id]; !ok {
 					wi.rcvCfg[id] = &struct{}{}
-					wi.rcvFac[id.Type()] = w.receiverFactory(r, shared[r])
+					if _, have := wi.rcvFac[id.Type()]; !have {
+						wi.rcvFac[id.Type()] = w.receiverFactory(id.Type().String(), shared[r])
+					}
 				}
 			}
 		}
 		for _, x := range p.P {
-			id := component.MustNewID(x)
+			id := w.cid("processor", x)
 			if _, ok := wi.procCfg[id]; !ok {
 				wi.procCfg[id] = &struct{}{}
-				wi.procFac[id.Type()] = w.processorFactory(x)
+				if _, have := wi.procFac[id.Type()]; !have {
+					wi.procFac[id.Type()] = w.processorFactory(id.Type().String())
+				}
 			}
 		}
 		for _, e := range p.E {
 			if !isConn[e] {
-				id := component.MustNewID(e)
+				id := w.cid("exporter", e)
 				if _, ok := wi.expCfg[id]; !ok {
 					wi.expCfg[id] = &struct{}{}
-					wi.expFac[id.Type()] = w.exporterFactory(e)
+					if _, have := wi.expFac[id.Type()]; !have {
+						wi.expFac[id.Type()] = w.exporterFactory(id.Type().String())
+					}
 				}
 			}
 		}
-		wi.pipes[pipeline.MustNewIDWithName(p.Sig, p.Name)] = &pipelines.PipelineConfig{
-			Receivers:  ids(shuffled(rng, p.R)),
-			Processors: ids(p.P),
-			Exporters:  ids(shuffled(rng, p.E)),
+		wi.pipes[pipeline.MustNewIDWithName(p.Sig, w.stem+p.Name)] = &pipelines.PipelineConfig{
+			Receivers:  ids("receiver", shuffled(rng, p.R)),
+			Processors: ids("processor", p.P),
+			Exporters:  ids("exporter", shuffled(rng, p.E)),
 		}
 	}
 	return wi
@@ -157,6 +173,9 @@ func runOne09(i int, cfg *Config, seed int64) (obs Obs09) {
 	fmt.Fprintf(h, "%d/%d", seed, i)
 	rng := rand.New(rand.NewSource(int64(h.Sum64())))
 	w := newWorld()
+	if i%3 == 1 {
+		w.stem = longStem
+	}
 	defer func() {
 		if r := recover(); r != nil {
 			buf := make([]byte, 4096)
@@ -199,6 +218,7 @@ func runOne09(i int, cfg *Config, seed int64) (obs Obs09) {
 		// the same configuration must also be refused by the public service.New, with nothing started
 		obs.SvcTried = true
 		w2 := newWorld()
+		w2.stem = w.stem
 		wi2 := wire(w2, cfg, rng)
 		srv, nerr := service.New(ctx, service.Settings{
 			BuildInfo:        component.NewDefaultBuildInfo(),
